@@ -311,6 +311,8 @@ def without_compiler(fn):
 def classify_apply(form, body, exp, obs):
     if form == 'each2':
         return 'each2-result-assembly'
+    if form == 'call-is-whole-body' and obs == ('exc', 'TypeError') and exp[0] == 'ok':
+        return 'fn-whose-body-is-a-call-with-list-literal-cannot-be-defined'
     if obs[0] == 'ok' and obs[1][0] == 'fn' and exp[0] == 'ok' and exp[1][0] != 'fn':
         return 'call-returns-function'
     if exp[0] == 'exc' and obs[0] == 'ok':
@@ -324,7 +326,7 @@ def check_body(body, univ, opts, st):
     setup = [G_SETUP] + ([LOCAL_GLOBALS] if body.local else [])
     define = 'f::' + body.fn
     rec = body.rec_fn() if opts.get('rec') else None
-    programs = setup + [define] + (['r::' + rec] if rec else [])
+    programs = setup + [define] + (['r::' + rec, 'w::{r(%s+1)}' % ';'.join(PARAMS[:body.n + 1])] if rec else [])
     collect = opts.get('adverbs') and body.n in (1, 2)
     if collect:
         # fc = f with its result expression wrapped in rec(...): a Python callable that logs the value it is given and
@@ -473,6 +475,9 @@ def check_body(body, univ, opts, st):
             run_call('apply-list', 'f@' + ltext, e2, t2)
         if n == 1 and args[0][0] in 'ir':
             run_call('apply-atom', 'f@' + plit(args[0]), exp, etext)
+        if opts.get('whole_body_call') and nodes_of(body.tree) == 0 and not body.local:
+            # a function whose whole body is the call (arity inference has a separate branch for this shape)
+            run_call('call-is-whole-body', '{f(' + alist + ')}()', exp, etext)
         if rec:
             for cnt in opts['rec_counts']:
                 if n == 2:
@@ -482,6 +487,13 @@ def check_body(body, univ, opts, st):
                 e3, t3 = oracle(want)
                 call = 'r(' + ';'.join([lit(a) for a in args] + [str(cnt)]) + ')'
                 run_call('recursion', call, e3, '%s after %d levels of .f' % (t3, cnt), oracle_prog=t3)
+                if cnt == opts['rec_counts'][-1]:
+                    # the same from inside another function's frame: .f must be the function being executed
+                    # w adds 1 to the counter, so it is not interchangeable with r
+                    want = args if (n != 2 or (cnt + 1) % 2 == 0) else (args[1], args[0])
+                    e4, t4 = oracle(want)
+                    run_call('recursion-from-function', 'w' + call[1:], e4,
+                             '%s after %d levels of .f, entered from the frame of w' % (t4, cnt + 1), oracle_prog=t4)
 
     def run_apps(form, text, arg_tuples):
         """Adverb with the logging verb fc: the sequence of values produced by the single applications must be the
@@ -608,16 +620,39 @@ def body_items(cfg):
 
 UNIV = {'U6': U6, 'U3': U3, 'U2': U2}
 OPTS = {
-    'full3': dict(rec=True, rec_counts=(0, 1, 2), adverbs=True, over3=True, each2_assembled=True),
+    'full3': dict(rec=True, rec_counts=(0, 1, 2), adverbs=True, over3=True, each2_assembled=True,
+                  whole_body_call=True),
     'full': dict(rec=True, rec_counts=(1, 2), adverbs=True, over3=False),
     'fullq': dict(rec=True, rec_counts=(1, 2), adverbs=True, over3=False),
     'local': dict(rec=False, adverbs=True, over3=False),
 }
 
 
+VIOLATION_CAP = 300     # per worker chunk and part: beyond it the rest of the chunk is skipped (the check has failed
+                        # massively anyway; keeps a badly broken tree from taking hours); never reached on the pinned tree
+_VCOUNT = None          # shared counter of violations over all workers (created before the fork)
+_VLIMIT = 0             # beyond it every worker skips its remaining items
+
+
+def _over_budget(st):
+    if len(st.d['violations']) >= VIOLATION_CAP:
+        return True
+    return _VCOUNT is not None and _VCOUNT.value >= _VLIMIT
+
+
+def _account(st, before):
+    if _VCOUNT is not None and len(st.d['violations']) > before:
+        with _VCOUNT.get_lock():
+            _VCOUNT.value += len(st.d['violations']) - before
+
+
 def work_apply(chunk):
     st = Stats()
     for tree, tmpl, u, o in chunk:
+        if _over_budget(st):
+            st.d['capped_items'] = st.d.get('capped_items', 0) + 1
+            continue
+        nv = len(st.d['violations'])
         body = Body(tree, tmpl)
         try:
             with runner.watchdog(120):
@@ -625,6 +660,7 @@ def work_apply(chunk):
         except runner.CaseTimeout:
             st.violation(G_SETUP + ';f::' + body.fn + ' [all call forms]', 'did not terminate', 'terminates',
                          dict(part='a', programs=[G_SETUP, 'f::' + body.fn]), None, 'hang')
+        _account(st, nv)
     st.d['bodies'] = len(chunk)
     return st.d
 
@@ -856,6 +892,10 @@ def fault_items(cfg):
 def work_fault(chunk):
     st = Stats()
     for ftree, depth, tuples in chunk:
+        if _over_budget(st):
+            st.d['capped_items'] = st.d.get('capped_items', 0) + 1
+            continue
+        nv = len(st.d['violations'])
         try:
             with runner.watchdog(60):
                 twin = twin_battery(fault_setup(render(ftree)), depth)
@@ -865,6 +905,7 @@ def work_fault(chunk):
         except runner.CaseTimeout:
             st.violation(render(ftree) + ' depth %d [fault]' % depth, 'did not terminate', 'terminates',
                          dict(part='c', programs=fault_setup(render(ftree))), None, 'hang')
+        _account(st, nv)
     return st.d
 
 
@@ -1002,6 +1043,10 @@ def run(cfg):
     parts = {}
     # (a) and (c) share one worker pool (starting a pool costs seconds on a busy machine); (b) and (d) are a few
     # thousand evaluations and run in this process
+    global _VCOUNT, _VLIMIT
+    import multiprocessing
+    _VCOUNT = multiprocessing.get_context('fork').Value('l', 0)
+    _VLIMIT = cfg.pick(3000, 20000)
     t0 = time.time()
     items_a, items_c = body_items(cfg), fault_items(cfg)
     pooled = {'a': {}, 'c': {}}
@@ -1042,7 +1087,8 @@ def run(cfg):
         'transitions': total.get('calls', 0),
         'traces_validated_against_impl': total.get('evals', 0),
         'samples': total.get('samples', []),
-        'exhaustive': True,
+        'exhaustive': not total.get('capped_items'),
+        'items_skipped_after_violation_cap': total.get('capped_items', 0),
         'distinct_outcomes': len(total.get('outcomes', ())),
         'parts': parts,
         'violation_groups': dict(sorted(groups.items())),
